@@ -48,7 +48,9 @@ pub(crate) fn parse_crate_path(attrs: &[Attribute]) -> Result<TokenStream2, Erro
 
 /// Extract doc comments from attributes.
 ///
-/// Each `#[doc = "..."]` attribute becomes a single comment string.
+/// Each `#[doc = "..."]` attribute becomes a single comment string. Surrounding whitespace (such
+/// as the space that follows `///`) is not part of the comment: the IDL syntax `# text` could not
+/// represent it, so a description carrying it would not survive being rendered and parsed back.
 #[cfg(feature = "introspection")]
 pub(crate) fn extract_doc_comments(attrs: &[Attribute]) -> Vec<String> {
     let mut comments = Vec::new();
@@ -57,14 +59,14 @@ pub(crate) fn extract_doc_comments(attrs: &[Attribute]) -> Vec<String> {
         if attr.path().is_ident("doc") {
             // Try different parsing methods
             if let Ok(lit_str) = attr.parse_args::<syn::LitStr>() {
-                comments.push(lit_str.value());
+                comments.push(lit_str.value().trim().to_string());
             } else if let syn::Meta::NameValue(meta_name_value) = &attr.meta {
                 if let syn::Expr::Lit(syn::ExprLit {
                     lit: syn::Lit::Str(lit_str),
                     ..
                 }) = &meta_name_value.value
                 {
-                    comments.push(lit_str.value());
+                    comments.push(lit_str.value().trim().to_string());
                 }
             }
         }
